@@ -128,6 +128,8 @@ func (s *Acceptor) serve(parentCtx context.Context, netConn net.Conn) {
 	defer handler.CloseErrorChan()
 
 	eg := errgroup.Group{}
+	// forwarded is closed once everything the connection had read has been handed to the handler
+	forwarded := make(chan struct{})
 
 	eg.Go(func() error {
 		defer cancelFun()
@@ -136,6 +138,12 @@ func (s *Acceptor) serve(parentCtx context.Context, netConn net.Conn) {
 		if err != nil {
 			err = fmt.Errorf("%s: %w", err, ErrConnClosed)
 			if !strings.Contains(err.Error(), "use of closed network connection") {
+				// the messages that arrived complete before the connection ended belong to the
+				// handler: it is stopped only after they have been handed over
+				select {
+				case <-forwarded:
+				case <-ctx.Done():
+				}
 				handler.StopWithError(err)
 			}
 		}
@@ -184,6 +192,9 @@ func (s *Acceptor) serve(parentCtx context.Context, netConn net.Conn) {
 
 			case msg, ok := <-conn.Reader():
 				if !ok {
+					close(forwarded)
+					<-ctx.Done()
+
 					return nil
 				}
 				handler.ServeIncoming(msg)
